@@ -14,7 +14,8 @@ RULE = ("every generator over the documented kwargs grid (accessible_cells as co
         "randomized_stack, start_coord, p) on shapes 1x1..12x12 incl. oblong; generation_meta judged against components/degrees of an "
         "adjacency-set model (visited == component of start; flag => connected, dfs flag iff connected; unflagged => visited recorded; "
         "constrained dfs = tree over visited, |visited| <= max(1,n), exact when unconstrained, no fork when do_forks=False); then "
-        "generate_random_path() must return walks along connections (ValueError = documented rejection). "
+        "generate_random_path() - plain and with endpoint options - must return walks along connections (ValueError = documented rejection) and "
+        "must leave the recorded metadata as truthful as before (re-judged after the draws). "
         "non-trivial & distinct = distinct (generator, shape, kwargs, connection_list) whose maze is not flagged fully connected, "
         "or percolation mazes whose start component is a strict subset")
 ASSUMPTIONS = ["grid shapes passed as numpy arrays", "fractions are floor/ceil-tolerant (docstring does not fix the rounding)"]
@@ -22,7 +23,7 @@ NSHARDS = {"quick": 16, "thorough": 16}
 THRESHOLDS = {
     "quick": {"repotests:ambient:gen:gen_dfs": 50, "c12:not-flagged": 500, "c12:perc-strict-subset": 200, "c12:no-forks-nontrivial": 100, "c12:random-path-ok": 1000,
               "c12:exact-count-checked": 300, "c12:gen_dfs": 500, "c12:gen_wilson": 100, "c12:gen_percolation": 300,
-              "c12:gen_dfs_percolation": 300, "c12:get_connected_component": 500, "hits:gen_dfs": 1},
+              "c12:gen_dfs_percolation": 300, "c12:get_connected_component": 500, "c12:metadata-rejudged-after-draws": 1000, "c12:random-path-with-options": 3000, "hits:gen_dfs": 1},
 }
 THRESHOLDS["thorough"] = dict(THRESHOLDS["quick"])
 ANCHORS = [
@@ -115,3 +116,29 @@ def _random_paths(ctx, maze, g, case, n):
         prob = g.path_problems(path)
         if ctx.check(prob is None, "C12/random-path-uses-non-edge", lambda: f"{prob}; path={np.asarray(path).tolist()}", case):
             ctx.tally("c12:random-path-ok")
+    # endpoint draws with options, then the metadata is judged again: drawing endpoints may not change what the maze records
+    gen = case.get("gen"); kw = case.get("kwargs") or {}
+    meta0 = maze.generation_meta or {}
+    vis0 = oracles._as_cellset(meta0.get("visited_cells"))
+    comp_cells = sorted(g.component_of(tuple(int(x) for x in meta0["start_coord"]))) if meta0.get("start_coord") is not None and g.in_grid(tuple(int(x) for x in meta0["start_coord"])) else []
+    opt_sets = [dict(endpoints_not_equal=True), dict(endpoints_not_equal=True, deadend_start=True), dict(deadend_end=True),
+                dict(endpoints_not_equal=True, allowed_start=comp_cells[:3] or None), dict(allowed_end=comp_cells[-2:] or None, endpoints_not_equal=True)]
+    for o in opt_sets:
+        o = {k: v for k, v in o.items() if v is not None}
+        for _rep in range(2):
+            try:
+                path = maze.generate_random_path(**o)
+                ctx.tally("c12:random-path-with-options")
+                prob = g.path_problems(path)
+                ctx.check(prob is None, "C12/random-path-uses-non-edge", lambda: f"{prob}; options {o}", case)
+            except ValueError:
+                ctx.tally("rejected:C12/random-path-with-options:ValueError")
+            except Exception as e:  # noqa: BLE001
+                ctx.violation(f"C12/random-path/exception/{type(e).__name__}", f"options {o}: {e!r}"[:500], case)
+                break
+    vis1 = oracles._as_cellset((maze.generation_meta or {}).get("visited_cells"))
+    ctx.tally("c12:metadata-rejudged-after-draws")
+    ctx.check(vis0 == vis1, "C12/endpoint-draws-changed-recorded-visited-cells",
+              lambda: f"|visited| before {None if vis0 is None else len(vis0)} after {None if vis1 is None else len(vis1)}; lost {sorted((vis0 or set()) - (vis1 or set()))[:6]}", case)
+    if gen is not None:
+        oracles.check_c12(ctx, gen, (R, C), kw, maze, g, dict(case, after="endpoint draws with options"))
